@@ -124,13 +124,15 @@ let parse_obs s =
 
 let json_escape s = String.concat "\\\"" (split_on '"' s)
 
-let compare_files hist_file obs_file =
+let compare_files ?(shards = 1) ?(shard = 0) hist_file obs_file =
   let hc = open_in hist_file and oc = open_in obs_file in
-  let lines = ref 0 and steps = ref 0 and mism = ref 0 in
+  let lines = ref 0 and steps = ref 0 and mism = ref 0 and lineno = ref 0 in
   let keystat = Hashtbl.create 16 in
   (try while true do
     let hl = input_line hc in
     let ol = try input_line oc with End_of_file -> "MISSING" in
+    incr lineno;
+    if (!lineno - 1) mod shards <> shard then () else begin
     incr lines;
     let h = parse_history hl in
     let m = machine h.prim in
@@ -175,6 +177,7 @@ let compare_files hist_file obs_file =
                 !lines i ev (json_escape gv) hl
             end
           end) (obs_fields e)) exp_sel got
+    end
   done with End_of_file -> ());
   Printf.eprintf "{\"histories\":%d,\"steps_compared\":%d,\"mismatches\":%d}\n" !lines !steps !mism
 
@@ -247,12 +250,110 @@ let print_model hist_file =
     print_endline (String.concat ";" (List.map str_obs sel))
   done with End_of_file -> ())
 
+(* ---------- threaded runs: generation and linearizability against the model ---------- *)
+(* thread programs come from a random contract-respecting walk of the sequential model (mode
+   "P<t>"; the executor deals the operations to t threads, see harness/src/main.rs); the walk only
+   makes the programs plausible, the threads interleave as they like *)
+let par_histories prim cfg seed count len threads out =
+  let m = machine prim in
+  Random.init seed;
+  for _ = 1 to count do
+    let s = ref (m.Base.m_init cfg) and ops = ref [] in
+    (try for _ = 1 to len do
+      (* not in threaded programs: teardown; semaphore releaser ops (they name a releaser by its
+         position in the model's global list, which a thread cannot know) *)
+      let keep o = o <> [n_of_int 20] &&
+        not (prim = "semaphore" && (match o with c :: _ -> c = n_of_int 5 || c = n_of_int 6 | [] -> false)) in
+      let en = Array.of_list (List.filter keep (m.Base.m_enabled !s)) in
+      if Array.length en = 0 then raise Exit;
+      let o = en.(Random.int (Array.length en)) in
+      let (s', _) = m.Base.m_step !s o in
+      s := s'; ops := o :: !ops
+    done with Exit -> ());
+    output_string out (str_history prim cfg ("P" ^ string_of_int threads) (List.rev !ops)); output_char out '\n'
+  done
+
+(* Wing-Gong search: is there a total order of the executed operations that respects real time
+   (a returned before b was invoked => a before b) and in which the model produces, for every
+   operation, the observed result code, wake list and value movements? *)
+let linearize_files hist_file obs_file =
+  let hc = open_in hist_file and oc = open_in obs_file in
+  let lines = ref 0 and bad = ref 0 and executed = ref 0 and overlapping = ref 0 in
+  (try while true do
+    let hl = input_line hc in
+    let ol = try input_line oc with End_of_file -> "" in
+    incr lines;
+    let h = parse_history hl in
+    let m = machine h.prim in
+    let ents = Array.of_list (split_on ';' ol) in
+    let ops = Array.of_list h.ops in
+    let ex = ref [] in
+    Array.iteri (fun i e ->
+      if i < Array.length ops && e <> "-" && e <> "" then begin
+        match String.index_opt e '|' with
+        | Some k ->
+          (match words (String.sub e 0 k) with
+           | [a; b] -> ex := (ops.(i), int_of_string a, int_of_string b,
+                              obs_of_string (String.sub e (k + 1) (String.length e - k - 1))) :: !ex
+           | _ -> ())
+        | None -> ()
+      end) ents;
+    let ex = Array.of_list (List.rev !ex) in
+    let n = Array.length ex in
+    executed := !executed + n;
+    if n > 60 then failwith "linearize: more than 60 operations in one history";
+    let pred = Array.make n 0 in
+    let conc = ref false in
+    for i = 0 to n - 1 do
+      let (_, si, ei, _) = ex.(i) in
+      for j = 0 to n - 1 do
+        let (_, sj, ej, _) = ex.(j) in
+        if ej < si then pred.(i) <- pred.(i) lor (1 lsl j)
+        else if i <> j && sj < ei && si < ej then conc := true
+      done
+    done;
+    if !conc then incr overlapping;
+    let hd1 l = match l with x :: _ -> [x] | [] -> [] in
+    let matches (o : Base.obs) (g : Base.obs) =
+      hd1 o.Base.o_res = hd1 g.Base.o_res && o.Base.o_wake = g.Base.o_wake && o.Base.o_val = g.Base.o_val in
+    let full = (1 lsl n) - 1 in
+    let memo = Hashtbl.create 1024 in
+    let key s = Marshal.to_string (m.Base.m_key s) [Marshal.No_sharing] in
+    let rec go mask s =
+      if mask = full then true else begin
+        let k = (mask, key s) in
+        if Hashtbl.mem memo k then false else begin
+          let ok = ref false in
+          let i = ref 0 in
+          while not !ok && !i < n do
+            if mask land (1 lsl !i) = 0 && pred.(!i) land (lnot mask) = 0 then begin
+              let (op, _, _, g) = ex.(!i) in
+              let (s', o) = m.Base.m_step s op in
+              if matches o g && go (mask lor (1 lsl !i)) s' then ok := true
+            end;
+            incr i
+          done;
+          if not !ok then Hashtbl.add memo k ();
+          !ok
+        end
+      end in
+    if not (go 0 (m.Base.m_init h.cfg)) then begin
+      incr bad;
+      Printf.printf "{\"line\":%d,\"key\":\"linearizability\",\"history\":\"%s\",\"observed\":\"%s\"}\n" !lines hl (json_escape ol)
+    end
+  done with End_of_file -> ());
+  Printf.eprintf "{\"histories\":%d,\"operations\":%d,\"with_overlap\":%d,\"not_linearizable\":%d}\n" !lines !executed !overlapping !bad
+
 let () =
   match Array.to_list Sys.argv with
+  | _ :: "pargen" :: prim :: cfg :: seed :: count :: len :: t :: _ ->
+      par_histories prim (nlist cfg) (int_of_string seed) (int_of_string count) (int_of_string len) (int_of_string t) stdout
+  | _ :: "linearize" :: h :: o :: _ -> linearize_files h o
   | _ :: "explore" :: prim :: cfg :: max :: _ -> explore prim (nlist cfg) (int_of_string max) stdout
   | _ :: "explore-full" :: prim :: cfg :: max :: _ -> explore ~mode:"A" prim (nlist cfg) (int_of_string max) stdout
   | _ :: "random" :: prim :: cfg :: seed :: count :: len :: _ ->
       random_histories prim (nlist cfg) (int_of_string seed) (int_of_string count) (int_of_string len) stdout
+  | _ :: "compare" :: h :: o :: k :: i :: _ -> compare_files ~shards:(int_of_string k) ~shard:(int_of_string i) h o
   | _ :: "compare" :: h :: o :: _ -> compare_files h o
   | _ :: "print" :: h :: _ -> print_model h
   | _ :: "extend" :: d :: h :: _ -> extend (int_of_string d) h stdout
